@@ -281,6 +281,12 @@ func verifC06RestartAndFailed() {
 			l.start(a, w.conns[i], ready)
 		}
 		w.conns[0].closeFails = verifChoice(2) == 1
+		// the candidates on record need not be of a configured network type
+		// (a relay candidate reached over IPv4 with only IPv6 configured)
+		if verifChoice(2) == 1 {
+			a.networkTypes = []NetworkType{NetworkTypeUDP6}
+			verifReach("candidate-outside-configured-network-types")
+		}
 		verifRunGoroutines()
 		if w.conns[0].closeFails {
 			verifReach("socket-close-fails")
